@@ -27,6 +27,7 @@ type Profile struct {
 	IOOps      bool
 	Names      []string
 	BigInts    bool
+	IdxPool    []string // fields CreateIndex chooses from
 }
 
 var baseWeights = map[string]int{
@@ -75,6 +76,7 @@ type Gen struct {
 	ids     []string
 	stamp   int
 	smallN  []int // ordinals of the "small" numbers used for selective fields
+	focus   []string
 	twins   []string
 }
 
@@ -330,8 +332,29 @@ func canonicalFor(u *Universe, v V, kind string) V {
 	return ANum(ord, "f")
 }
 
+// leafField prefers the fields that are indexed in the collection the query is aimed at, so that
+// the planner's index paths are exercised.
+func (g *Gen) leafField() string {
+	if len(g.focus) > 0 && g.chance(0.65) {
+		return g.pick(g.focus)
+	}
+	return g.pick(pathPool)
+}
+
+func (g *Gen) setFocus(c string) {
+	g.focus = nil
+	var fs []string
+	for f, ok := range g.idx[c] {
+		if ok {
+			fs = append(fs, f)
+		}
+	}
+	sortStrings(fs)
+	g.focus = fs
+}
+
 func (g *Gen) leaf() []interface{} {
-	f := g.pick(pathPool)
+	f := g.leafField()
 	k := g.r.Intn(100)
 	switch {
 	case k < 8:
@@ -408,7 +431,7 @@ func (g *Gen) sortOpts() []interface{} {
 	}
 	opts := make([]interface{}, 0)
 	for i := 0; i < n; i++ {
-		opts = append(opts, []interface{}{B(g.pick(pathPool)), dirPool[g.r.Intn(len(dirPool))]})
+		opts = append(opts, []interface{}{B(g.leafField()), dirPool[g.r.Intn(len(dirPool))]})
 	}
 	return opts
 }
@@ -511,6 +534,7 @@ func (g *Gen) noteInsert(c string, ids ...string) {
 
 func (g *Gen) event(op string) E {
 	c := g.coll()
+	g.setFocus(c)
 	switch op {
 	case "CreateCollection":
 		var cands []string
@@ -613,7 +637,11 @@ func (g *Gen) event(op string) E {
 		}
 		return E{"op": op, "c": c, "id": B(id)}
 	case "CreateIndex":
-		f := g.pick([]string{"x", "xy", "s", "n.a", "n", "t", "k", "arr", "b", "z", "missing", "_id"})
+		pool := []string{"x", "xy", "s", "n.a", "n", "t", "k", "arr", "b", "z", "missing", "_id"}
+		if g.P.IdxPool != nil {
+			pool = g.P.IdxPool
+		}
+		f := g.pick(pool)
 		if g.idx[c] == nil {
 			g.idx[c] = map[string]bool{}
 		}
@@ -727,8 +755,12 @@ func (g *Gen) History() []E {
 			g.live[c] = map[string]bool{}
 			g.idx[c] = map[string]bool{}
 			evs = append(evs, E{"op": "CreateCollection", "c": c})
-			if g.P.Indexes && g.chance(0.4) {
-				f := g.pick([]string{"x", "xy", "n.a", "s"})
+			if g.P.Indexes && g.chance(0.5) {
+				pool := []string{"x", "xy", "n.a", "s"}
+				if g.P.IdxPool != nil {
+					pool = g.P.IdxPool
+				}
+				f := g.pick(pool)
 				g.idx[c][f] = true
 				evs = append(evs, E{"op": "CreateIndex", "c": c, "f": B(f)})
 			}
